@@ -10,14 +10,31 @@ from contracts.a_state import (ScopeList, ParamDict, Key2, key2, join_slash,
 GhostW = KDict(KStr, KInt)     # only the value array is used: p -> last index
 
 
-def _S(x):
-  """The scope the overlay is computed for: the argument if it is a non-empty
-  list, else the scope active in the calling thread."""
+def _S_term(x):
   a = x.a.scope_components
   st = eff_stack(x.old['_SCOPE_MANAGER'])
   top = z3.Select(st.arr, st.len - 1)
   use_arg = z3.And(z3.Not(a.is_none), a.inner.len > 0)
-  return ScopeList.unbox(z3.If(use_arg, ScopeList.box(a.inner), top))
+  return z3.If(use_arg, ScopeList.box(a.inner), top)
+
+
+def _Sb(x):
+  """The (boxed) scope the overlay is computed for, as ONE constant per path (so that clauses and
+  triggers mention a plain term instead of a nest of if-then-else); its definition -- the
+  argument if it is a non-empty list, else the scope active in the calling thread -- is
+  assumed where the constant is introduced."""
+  g = x.path.ghost
+  t = _S_term(x)
+  key = ('overlay_S', t.get_id())        # one constant per distinct term (sound: each constant
+  if key not in g:                       # is defined equal to its own term)
+    sb = x.path.fresh_const('overlay_scope', ScopeList.sort())
+    x.path.assume(sb == t)
+    g[key] = (sb, t)                     # t kept alive so that its id is not reused
+  return g[key][0]
+
+
+def _S(x):
+  return ScopeList.unbox(_Sb(x))
 
 
 def _defs(x):
@@ -45,15 +62,21 @@ def value_at(x, lst_boxed, p):
   return _defs(x)[1](lst_boxed, p)
 
 
+def _slpref(L, j):
+  return sym.ufun('scope_list_prefix', ScopeList.sort(), sym.IntS, ScopeList.sort())(L, j)
+
+
+def _slpref_definition():
+  L = z3.Const('L!pf', ScopeList.sort())
+  j = z3.Int('j!pf')
+  return sym.forall([L, j], _slpref(L, j) == ScopeList.box(ScopeList.unbox(L).prefix(j)),
+                    patterns=[_slpref(L, j)])
+
+
 def _pref(x, j):
-  """box(S[:j]) through a defined symbol (gives the solver a trigger)."""
-  key = ('pref', ScopeList.box(_S(x)).get_id())
-  f = x.ghost.get(key)
-  if f is None:
-    jj = z3.Int('j!pref')
-    f = x.path.define('pref', [jj], ScopeList.box(_S(x).prefix(jj)))
-    x.ghost[key] = f
-  return f(j)
+  """box(S[:j]) through ONE defined symbol (gives the solver a trigger; defined once, at
+  entry, so that every mention is the same term)."""
+  return _slpref(_Sb(x), j)
 
 
 c = Contract('config.py::_get_bindings', ['C01'])
@@ -65,6 +88,11 @@ c.modifies = {'_SCOPE_MANAGER'}      # current_scope() may initialise the attrib
 c.local_kinds = {'new_kwargs': ParamDict, 'partial_scopes': KList(ScopeList),
                  'scope_components': ScopeList}
 c.require('stack_non_empty', lambda x: eff_stack(x.old['_SCOPE_MANAGER']).len >= 1)
+c.assume_entry('definition_of_overlay_scope', lambda x: _Sb(x) == _S_term(x),
+               'definition (a name for a term): the overlay is computed for the argument if it is '
+               'a non-empty list, else for the scope active in the calling thread')
+c.assume_entry('definition_of_scope_list_prefix', lambda x: _slpref_definition(),
+               'definition of the spec function scope_list_prefix(L, j) = L[:j]')
 c.raises_only_listed = True          # never raises
 
 p_ = z3.Const('p!b', sym.Str)
@@ -77,7 +105,7 @@ def _bound_iff(x):
   res = x.result
   inherit = z3.ForAll([p_], res.dom[p_] == z3.Exists(
       [j_], z3.And(0 <= j_, j_ <= n, bound_at(x, _pref(x, j_), p_))))
-  strict = z3.ForAll([p_], res.dom[p_] == bound_at(x, ScopeList.box(_S(x)), p_))
+  strict = z3.ForAll([p_], res.dom[p_] == bound_at(x, _Sb(x), p_))
   return z3.If(x.a.inherit_scopes.e, inherit, strict)
 
 
@@ -90,7 +118,7 @@ def _longest_wins(x):
                                          z3.Not(bound_at(x, _pref(x, j2_), p_))))),
       res.val[p_] == value_at(x, _pref(x, j_), p_)))
   strict = z3.ForAll([p_], z3.Implies(
-      res.dom[p_], res.val[p_] == value_at(x, ScopeList.box(_S(x)), p_)))
+      res.dom[p_], res.val[p_] == value_at(x, _Sb(x), p_)))
   return z3.If(x.a.inherit_scopes.e, inherit, strict)
 
 
